@@ -2447,7 +2447,7 @@ def _sb_mateq(eng, st, node):
 
 
 def _sb_lemma_mpw(eng, st, node):
-    """DEFINITION (Lean: mpw_one, mpw_succ, mpw_succ_left -- Mathlib pow_one, pow_succ, pow_succ' for square matrices): mpw(G, 1) == G and
+    """DEFINITION (Lean: mpw_one, mpw_succ, mpw_succ_left): mpw(G, 1) == G and
     mpw(G, d + 1) == mdot(mpw(G, d), G) == mdot(G, mpw(G, d)) for the given d >= 1.  lemma_mpw(G, d)."""
     G = _term2(eng, st, eng.ev(node.args[0], st))
     d = to_z3(eng.ev(node.args[1], st), INT)
